@@ -565,6 +565,25 @@ func (x *gen) adjExpr(d int) string {
 		}
 	case 5:
 		return "a * 2 " + bin + " " + pre + operand
+	case 6:
+		// round 11: the right operand is NOT itself a prefix expression but an operator of higher precedence whose
+		// LEFTMOST leaf is one: a - -b*c is a - ((-b)*c), printed compactly the two signs still meet
+		hi := []string{"*", "/", "%", "*"}[x.intn(4)]
+		third := []string{"b", "a", "2", pre + "a", "(a+1)"}[x.intn(5)]
+		if x.intn(3) == 0 {
+			return "a " + bin + " " + pre + operand + " " + hi + " " + third + " " + []string{"*", "/", "%"}[x.intn(3)] + " 3"
+		}
+		return "a " + bin + " " + pre + operand + " " + hi + " " + third
+	case 7:
+		// the same below an index, a call argument and a second operator
+		hi := []string{"*", "/", "%"}[x.intn(3)]
+		switch x.intn(3) {
+		case 0:
+			return "[a " + bin + " " + pre + operand + " " + hi + " b][0]"
+		case 1:
+			return "max(a " + bin + " " + pre + operand + " " + hi + " b, a)"
+		}
+		return "(a " + bin + " " + pre + operand + " " + hi + " b) " + bin + " " + pre + "a " + hi + " 2"
 	}
 	return "a " + bin + " " + pre + operand
 }
